@@ -119,6 +119,51 @@ pub fn check_ok_means_acked(rep: &mut CaseReport, c: &Ctx) -> [u64; 2] {
     covered
 }
 
+/// Oracle (1), delivery part, any network: what a successful flush / shutdown covered reaches a
+/// peer application that reads until its stream ends (end of stream or error), whatever the
+/// network did. Not judged when the reader's own side was aborted by its application.
+pub fn check_ok_bytes_delivered(rep: &mut CaseReport, c: &Ctx, covered: [u64; 2], reader_keeps_reading: [bool; 2]) {
+    for side in 0..2usize {
+        let rside = 1 - side;
+        if covered[side] == 0 || !reader_keeps_reading[rside] {
+            continue;
+        }
+        let mut read = 0u64;
+        let mut ended: Option<(Us, String)> = None;
+        for e in c.events {
+            if let Ev::Api { conn: 0, side: s, op } = &e.ev {
+                if *s as usize != rside {
+                    continue;
+                }
+                match op {
+                    ApiOp::ReadRet(Ok(0)) => ended = ended.or(Some((e.t, "end of stream".into()))),
+                    ApiOp::ReadRet(Ok(n)) => read += *n as u64,
+                    ApiOp::ReadRet(Err(err)) => ended = ended.or(Some((e.t, format!("error: {err}")))),
+                    _ => {}
+                }
+            }
+        }
+        let (t_end, how) = match ended {
+            Some(x) => x,
+            None => continue,
+        };
+        rep.counters.inc("c03_ok_coverage_vs_peer_reads_checked");
+        if read < covered[side] {
+            let cause = c.corrupt_cause[side];
+            rep.violate(
+                P,
+                "ok-bytes-not-delivered",
+                format!("general{cause}"),
+                format!(
+                    "side {side} was told Ok (flush/shutdown) for {} bytes; the peer application read until its stream ended ({how}) and got only {read}",
+                    covered[side]
+                ),
+                Some(t_end),
+            );
+        }
+    }
+}
+
 /// Oracle (1), cut part: the network was cut when side `side` got Ok; the peer keeps reading.
 pub fn check_cut_delivery(rep: &mut CaseReport, c: &Ctx, side: usize, covered: u64, peer_read: u64, peer_end: &str) {
     rep.counters.inc("c03_cut_cases_checked");
